@@ -15,7 +15,7 @@ import random
 import re
 
 VERIF_DIR = os.path.dirname(os.path.dirname(os.path.abspath(__file__)))
-OUT_DIR = os.path.join(VERIF_DIR, "out")
+OUT_DIR = os.environ.get("VERIF_OUT") or os.path.join(VERIF_DIR, "out")
 DEFAULT_SEED = 20261003
 
 
